@@ -23,6 +23,8 @@ from warnings import warn
 from .collections import PVLObject, PVLGroup, Quantity
 from .grammar import PVLGrammar, ODLGrammar, PDSGrammar, ISISGrammar
 from .token import Token
+from .lexer import lexer
+from .exceptions import LexerError
 from .decoder import PVLDecoder, ODLDecoder, PDSLabelDecoder, OmniDecoder
 from .grammar import OmniGrammar
 
@@ -363,6 +365,8 @@ class PVLEncoder(object):
         else:
             raise ValueError("The value {value} is not dict-like.")
 
+        self.check_name(key, "Block Name")
+
         if key.endswith("-") and not self.end_delimiter:
             # Nothing follows the Block Name on its line, and a dash at
             # the end of a line is a line continuation for ISIS and for
@@ -404,6 +408,8 @@ class PVLEncoder(object):
         if key_len is None:
             key_len = len(key)
 
+        self.check_name(key, "Parameter Name")
+
         s = ""
         s += "{} = ".format(key.ljust(key_len))
 
@@ -428,6 +434,26 @@ class PVLEncoder(object):
                 s += self.grammar.delimiters[0]
 
             return self.format(s, level)
+
+    def check_name(self, name: str, kind: str = "Parameter Name"):
+        """Raises ValueError if *name* cannot be written as a
+        Parameter Name (which is also what a Block Name is): written
+        as it is, it must be read back as that one name.
+        """
+        try:
+            tokens = list(lexer(name, g=self.grammar, d=self.decoder))
+        except LexerError:
+            tokens = list()
+
+        if (
+            len(tokens) != 1
+            or str(tokens[0]) != name
+            or not tokens[0].is_parameter_name()
+        ):
+            raise ValueError(
+                f'The {kind} "{name}" cannot be written: it would not be '
+                "read back as a Parameter Name."
+            )
 
     def encode_value(self, value) -> str:
         """Returns a ``str`` formatted as a PVL Value based
@@ -824,6 +850,8 @@ class ODLEncoder(PVLEncoder):
             raise ValueError(
                 f'The keyword "{key}" is not a valid ODL ' "Identifier."
             )
+
+        self.check_name(ident, "keyword")
 
         s = "{} = ".format(ident.ljust(key_len))
         s += self.encode_value(value)
